@@ -26,11 +26,33 @@ def pool(seed, tier):
              ("bad:tworec", "type A = +{l : A}\ntype B = +{l : B}\nlet g(x : A) : B = fwd self x\nprc[a] : 1 = print t; close self"),
              ("bad:dupfun", "let f() : 1 = close self\nlet f() : 1 = close self\n"),
              ("ok:empty", "")]
+    # related programs: a generated program followed by variants of it that keep the declared names but
+    # change a type definition / a mode / a label (so that anything remembered about a NAME from an
+    # earlier program would be wrong for the later one)
+    related = []
+    try:
+        from .. import proggen
+        rng = random.Random(seed + 5)
+        for k in range(12 if tier == "quick" else 150):
+            try:
+                pr = proggen.gen_program(rng, size="quick", closed=True, want_terminating=True)
+                ms = [m for m in proggen.mutants(rng, pr, 24) if m[0].startswith("type-") or m[0].startswith("change-mode") or "label" in m[0]]
+            except Exception:
+                continue
+            grp = [("rel%d:base" % k, pr.text)] + [("rel%d:%s" % (k, m[0]), m[1]) for m in ms[:4]]
+            related.append(grp)
+    except ImportError:
+        pass
+    pool.related = related
     return progs + extra
 
 
-def seq_run(b, hist, timeout_ms):
-    res = S.run_tool(b.probe, "seq", [(str(k), "", t) for k, (_, t) in enumerate(hist)], timeout=120 + len(hist) * 5, extra_args=[str(timeout_ms)])
+def _related_groups():
+    return getattr(pool, "related", [])
+
+
+def seq_run(b, hist, timeout_ms, sub="seq"):
+    res = S.run_tool(b.probe, sub, [(str(k), "", t) for k, (_, t) in enumerate(hist)], timeout=120 + len(hist) * 5, extra_args=[str(timeout_ms)])
     out = []
     for k in range(len(hist)):
         v = res.get(str(k), "MISSING")
@@ -52,6 +74,12 @@ def run(b, ps, tier, seed):
         h = [rng.choice(pl) for _ in range(k)]
         if rng.random() < 0.7 and len(h) > 2:       # repeats
             h[rng.randrange(len(h))] = h[0]
+        grs = _related_groups()
+        if grs and rng.random() < 0.6:
+            g = rng.choice(grs)
+            seq = [g[0]] + [rng.choice(g) for _ in range(rng.randint(2, 4))]
+            pos = rng.randrange(len(h) + 1)
+            h = h[:pos] + seq + h[pos:]
         hists.append(h)
     tmo = 250 if tier == "quick" else 350
     # alone: every distinct program in its own fresh process (a history of length one)
@@ -75,12 +103,13 @@ def run(b, ps, tier, seed):
         tag = {"RAN": "RAN", "REJECT": "REJECT", "REJECT-INTERNAL": "REJECT", "PARSE-ERR": "PARSE-ERR"}.get(m["tag"], m["tag"])
         model_res[t] = (tag, sorted(m["prints"]))
 
-    def one(h):
-        return h, seq_run(b, h, tmo)
+    def one(hs):
+        h, sub = hs
+        return h, sub, seq_run(b, h, tmo, sub)
     checked, deviations, artefacts = 0, 0, 0
     verdicts = collections.Counter()
     with concurrent.futures.ThreadPoolExecutor(max_workers=6) as ex:
-        for h, got in ex.map(one, hists):
+        for h, sub, got in ex.map(one, [(h, sub) for h in hists for sub in ("seq", "seqre")]):
             for k, ((i, t), g) in enumerate(zip(h, got)):
                 checked += 1
                 verdicts[g[0]] += 1
@@ -88,7 +117,7 @@ def run(b, ps, tier, seed):
                 if g == want and (want == model_res[t] or model_res[t][0] in ("OUTOFFUEL",)):
                     continue
                 # timer-based quiescence: re-run the history (and the program alone) generously before counting
-                g2 = seq_run(b, h, 1200)[k]
+                g2 = seq_run(b, h, 1200, sub)[k]
                 w2 = seq_run(b, [("x", t)], 1200)[0]
                 if g2 == w2 and (w2 == model_res[t] or model_res[t][0] == "OUTOFFUEL"):
                     artefacts += 1
@@ -98,13 +127,13 @@ def run(b, ps, tier, seed):
                     violations.append(C.Violation(
                         "program %d (%s) of a history behaves differently than alone: in history %s, alone %s, model %s" % (k, i, g2, w2, model_res[t]),
                         {"property": PROP, "kind": "history-dependence", "index": k, "history": [{"id": a, "text": x} for a, x in h],
-                         "in_history": g2, "alone": w2, "model": model_res[t], "replay_cmd": "bin/check C19 --replay <this file>"}))
+                         "in_history": g2, "alone": w2, "model": model_res[t], "host_pattern": sub, "replay_cmd": "bin/check C19 --replay <this file>"}))
     cov = {
         "evaluations": checked,
         "distinct_nontrivial": len(distinct),
         "rule": "histories of %d..%d programs drawn from the closed programs of the run suite (accepted and rejected) plus unparseable / non-contractive / empty ones, with repeats; each history runs inside one OS process (`probe seq`), each program also alone; non-trivial = distinct program texts" % hlen,
         "samples": [[i for i, _ in h] for h in hists[:3]],
-        "histories": len(hists), "verdicts_in_histories": dict(verdicts),
+        "histories": len(hists), "host_patterns": ["seq: a fresh RuntimeEnvironment per program (as the repository's tests and benchmark driver do)", "seqre: ONE RuntimeEnvironment re-used through InitializeProcesses"], "verdicts_in_histories": dict(verdicts),
         "deviations_confirmed": deviations, "cut_short_by_timer_then_ok_on_rerun": artefacts,
     }
     return {"violations": violations, "known": [], "coverage": cov,
@@ -121,7 +150,7 @@ def replay(b, path):
         return 1
     h = [(x["id"], x["text"]) for x in r["history"]]
     k = r["index"]
-    g = seq_run(b, h, 1200)[k]
+    g = seq_run(b, h, 1200, r.get("host_pattern", "seq"))[k]
     w = seq_run(b, [h[k]], 1200)[0]
     print("in history:", g, "alone:", w)
     return 0 if g == w else 1
